@@ -99,28 +99,35 @@ func (m *c02Model) apply(id string, data any) bool {
 
 // ---- generators ----
 
-// c02Base: a base document: a is any scalar or a map (thorough: or absent).
+// c02Base: a base document: a is any scalar, a map or a list (thorough: or absent).
 func c02Base() map[string]any {
 	m := map[string]any{}
-	n := 2
+	n := 3
 	if vTier() > 0 {
-		n = 3
+		n = 4
 	}
 	switch ndChoice(n) {
 	case 0:
 		m["a"] = ndScalarNN()
 	case 1:
 		m["a"] = map[string]any{"x": 1}
+	case 2:
+		m["a"] = []any{"p", "q"}
 	}
 	return m
 }
 
 func c02Match(m map[string]any, full bool) {
-	n := 8
+	n := 10
 	if !full {
 		n = 3
 	}
 	switch ndChoice(n) {
+	case 8:
+		// a list pattern: hit only by documents holding ALL its entries
+		m["$match"] = map[string]any{"a": []any{"p", "q"}}
+	case 9:
+		m["$match"] = map[string]any{"a": []any{"q", "z"}}
 	case 6:
 		// a nested pattern: documents whose "a" is a scalar (or absent) are
 		// not hit by it ...
